@@ -47,6 +47,30 @@ def _nopark(stage):
     return None
 
 
+def baseline_plans(case):
+    """urlkey -> the no-op first-request plan for it, in order of first use."""
+    out, n = {}, 900
+    for p in case['plans']:
+        k = urlkey(p)
+        if k not in out:
+            n += 1
+            out[k] = baseline_plan(p, n if n < 1000 else 999)
+    return out
+
+
+def summarize(rec, tok):
+    """What a call observed and answered, normalised: comparable across processes."""
+    return [[[s['stage'], normalise(s['contents'], tok)] for s in rec['snaps']], rec['status'],
+            normalise(canon_wsgi_headers(rec['wsgi_headers']), tok), _mask(rec['body'] or ''), rec['exc']]
+
+
+def lone_request(site_desc, bp):
+    """Serve exactly one request on a freshly built site (meant to run in a process that served nothing)."""
+    site = S.Site(site_desc)
+    del S.EVENTS[:]
+    return summarize(S.do_call(site, bp, _nopark), bp['token'])
+
+
 class _Abort(BaseException):
     """Unwinds a parked worker when the controller gives up on a case (state blow-up after a leak)."""
 
@@ -148,12 +172,8 @@ def execute(case):
     plans = case['plans']
     baselines = {}
     blown = False
-    n = 900
-    for p in plans:
-        k = urlkey(p)
-        if k not in baselines:
-            n += 1
-            bp = baseline_plan(p, n if n < 1000 else 999)
+    for k, bp in baseline_plans(case).items():
+        if True:
             S.CUR.plan = None
             baselines[k] = (bp, S.do_call(site, bp, _nopark))
             if len(baselines[k][1]['snaps']) > MAX_SNAPS:
